@@ -498,7 +498,7 @@ theorem udpSendWaitFired_udp? (n : NetSt) (name x : String) (ab : Bool) :
         by_cases hx : x = name <;> simp [hx, h, this]
       | some hh => simp
 
-theorem udpSendWaitFired_frame (n : NetSt) (name : String) (ab : Bool) :
+theorem udpSendWaitFired_frame_d (n : NetSt) (name : String) (ab : Bool) :
     (n.udpSendWaitFired name ab).1.fwds = n.fwds ∧ (n.udpSendWaitFired name ab).1.reg = n.reg
     ∧ (n.udpSendWaitFired name ab).1.tcps = n.tcps ∧ (n.udpSendWaitFired name ab).1.cfg = n.cfg := by
   unfold NetSt.udpSendWaitFired
@@ -662,10 +662,10 @@ def UdpSock.movedFrom (u : UdpSock) : UdpSock :=
 theorem UdpSock.DOk.movedFrom (u : UdpSock) : u.movedFrom.DOk := by
   constructor <;> simp [UdpSock.movedFrom]
 
-theorem udpMove_none (n : NetSt) (src dst : String) (h : n.udp? src = none) : n.udpMove src dst = n := by
+theorem udpMove_none_d (n : NetSt) (src dst : String) (h : n.udp? src = none) : n.udpMove src dst = n := by
   unfold NetSt.udpMove; simp only [h]
 
-theorem udpMove_some (n : NetSt) (src dst : String) (u : UdpSock) (h : n.udp? src = some u) :
+theorem udpMove_some_d (n : NetSt) (src dst : String) (u : UdpSock) (h : n.udp? src = some u) :
     n.udpMove src dst =
       (({ n with reg := { n.reg with udp := if u.bound.isDefault then n.reg.udp
                                             else n.reg.udp.map (fun (e : Ep × String) => if e.1 == u.bound then (e.1, dst) else e) },
@@ -677,23 +677,23 @@ theorem udpMove_some (n : NetSt) (src dst : String) (u : UdpSock) (h : n.udp? sr
 
 theorem udpMove_udp? (n : NetSt) (src dst x : String) (u : UdpSock) (h : n.udp? src = some u) :
     (n.udpMove src dst).udp? x = if x = src then some u.movedFrom else if x = dst then some u else n.udp? x := by
-  rw [udpMove_some n src dst u h, udp?_setUdp, udp?_setUdp]
+  rw [udpMove_some_d n src dst u h, udp?_setUdp, udp?_setUdp]
   rfl
 
 theorem udpMove_tcps (n : NetSt) (src dst : String) : (n.udpMove src dst).tcps = n.tcps := by
   cases h : n.udp? src with
-  | none => rw [udpMove_none n src dst h]
-  | some u => rw [udpMove_some n src dst u h]; rfl
+  | none => rw [udpMove_none_d n src dst h]
+  | some u => rw [udpMove_some_d n src dst u h]; rfl
 
 theorem udpMove_fwds_length (n : NetSt) (src dst : String) : (n.udpMove src dst).fwds.length = n.fwds.length := by
   cases h : n.udp? src with
-  | none => rw [udpMove_none n src dst h]
-  | some u => rw [udpMove_some n src dst u h]; cases u.fwd <;> simp [NetSt.setFwd]
+  | none => rw [udpMove_none_d n src dst h]
+  | some u => rw [udpMove_some_d n src dst u h]; cases u.fwd <;> simp [NetSt.setFwd]
 
 theorem udpMove_fwdTarget (n : NetSt) (src dst : String) (u : UdpSock) (h : n.udp? src = some u) (g : Nat)
     (hlt : ∀ f, u.fwd = some f → f < n.fwds.length) :
     (n.udpMove src dst).fwdTarget g = if u.fwd = some g then some dst else n.fwdTarget g := by
-  rw [udpMove_some n src dst u h]
+  rw [udpMove_some_d n src dst u h]
   cases hf : u.fwd with
   | none => simp [NetSt.fwdTarget]
   | some f =>
@@ -710,13 +710,14 @@ theorem udpMove_fwdTarget (n : NetSt) (src dst : String) (u : UdpSock) (h : n.ud
 structure NetSt.tFrame (n n' : NetSt) : Prop where
   udps : n'.udps = n.udps
   regU : n'.reg.udp = n.reg.udp
+  cfg  : n'.cfg = n.cfg
   len  : n.fwds.length ≤ n'.fwds.length
   mono : ∀ g, g < n.fwds.length → n'.fwdTarget g = n.fwdTarget g ∨ n'.fwdTarget g = none
 
-theorem NetSt.tFrame.refl (n : NetSt) : n.tFrame n := ⟨rfl, rfl, Nat.le_refl _, fun _ _ => Or.inl rfl⟩
+theorem NetSt.tFrame.refl (n : NetSt) : n.tFrame n := ⟨rfl, rfl, rfl, Nat.le_refl _, fun _ _ => Or.inl rfl⟩
 
 theorem NetSt.tFrame.trans {n m k : NetSt} (h1 : n.tFrame m) (h2 : m.tFrame k) : n.tFrame k := by
-  refine ⟨h2.udps.trans h1.udps, h2.regU.trans h1.regU, Nat.le_trans h1.len h2.len, fun g hg => ?_⟩
+  refine ⟨h2.udps.trans h1.udps, h2.regU.trans h1.regU, h2.cfg.trans h1.cfg, Nat.le_trans h1.len h2.len, fun g hg => ?_⟩
   rcases h2.mono g (Nat.lt_of_lt_of_le hg h1.len) with a | a
   · rcases h1.mono g hg with b | b
     · exact Or.inl (a.trans b)
@@ -724,18 +725,18 @@ theorem NetSt.tFrame.trans {n m k : NetSt} (h1 : n.tFrame m) (h2 : m.tFrame k) :
   · exact Or.inr a
 
 theorem NetSt.tFrame.of_eq {n m k : NetSt} (h : n.tFrame m) (h1 : k.udps = m.udps) (h2 : k.reg.udp = m.reg.udp)
-    (h3 : k.fwds = m.fwds) : n.tFrame k :=
-  h.trans ⟨h1, h2, by rw [h3]; exact Nat.le_refl _, fun g _ => Or.inl (fwdTarget_congr _ _ h3 g)⟩
+    (h3 : k.fwds = m.fwds) (h4 : k.cfg = m.cfg) : n.tFrame k :=
+  h.trans ⟨h1, h2, h4, by rw [h3]; exact Nat.le_refl _, fun g _ => Or.inl (fwdTarget_congr _ _ h3 g)⟩
 
 theorem NetSt.tFrame.setTcp {n m : NetSt} (h : n.tFrame m) (k : String) (v : TcpSock) : n.tFrame (m.setTcp k v) :=
-  h.of_eq rfl rfl rfl
+  h.of_eq rfl rfl rfl rfl
 theorem NetSt.tFrame.setChan {n m : NetSt} (h : n.tFrame m) (c : Nat) (ch : Chan) : n.tFrame (m.setChan c ch) :=
-  h.of_eq rfl rfl rfl
+  h.of_eq rfl rfl rfl rfl
 theorem NetSt.tFrame.setFwdNone {n m : NetSt} (h : n.tFrame m) (f : Nat) : n.tFrame (m.setFwd f none) :=
-  h.trans ⟨rfl, rfl, by simp, fun g _ => by
+  h.trans ⟨rfl, rfl, rfl, by simp, fun g _ => by
     rw [fwdTarget_setFwd_none]; by_cases hg : g = f <;> simp [hg]⟩
 theorem NetSt.tFrame.newFwd {n m : NetSt} (h : n.tFrame m) (name : String) : n.tFrame (m.newFwd name).1 :=
-  h.trans ⟨rfl, rfl, by simp, fun g hg => by
+  h.trans ⟨rfl, rfl, rfl, by simp, fun g hg => by
     rw [fwdTarget_newFwd]; have : g ≠ m.fwds.length := by omega
     simp [this]⟩
 
@@ -777,7 +778,7 @@ theorem NetSt.tFrame.tcpClose {n m : NetSt} (h : n.tFrame m) (now : Int) (name :
       dsimp only
       refine NetSt.tFrame.setTcp (NetSt.tFrame.setFwdOpt ?_ s.fwd) _ _
       split
-      · exact h1.of_eq rfl rfl rfl
+      · exact h1.of_eq rfl rfl rfl rfl
       · exact h1
 
 theorem NetSt.tFrame.tcpOpen {n m : NetSt} (h : n.tFrame m) (now : Int) (name : String) (v4 : Bool) :
@@ -799,7 +800,7 @@ theorem NetSt.tFrame.tcpBind {n m : NetSt} (h : n.tFrame m) (name : String) (ep 
   repeat' split
   all_goals first
     | exact h
-    | exact h.of_eq rfl rfl rfl
+    | exact h.of_eq rfl rfl rfl rfl
     | exact (h.of_eq (m := m) rfl rfl rfl).setTcp _ _
 
 theorem NetSt.tFrame.internalConnect {n m : NetSt} (h : n.tFrame m) (name : String) (target : Ep) :
@@ -808,7 +809,7 @@ theorem NetSt.tFrame.internalConnect {n m : NetSt} (h : n.tFrame m) (name : Stri
   repeat' split
   all_goals first
     | exact h
-    | exact h.of_eq rfl rfl rfl
+    | exact h.of_eq rfl rfl rfl rfl
 
 theorem NetSt.tFrame.tcpConnect {n m : NetSt} (h : n.tFrame m) (now : Int) (name : String) (target : Ep) (hh : Nat) :
     n.tFrame (m.tcpConnect now name target hh).1 := by
@@ -837,7 +838,7 @@ theorem NetSt.tFrame.tcpConnect {n m : NetSt} (h : n.tFrame m) (now : Int) (name
         repeat' split
         all_goals first
           | exact h1
-          | exact h1.of_eq rfl rfl rfl
+          | exact h1.of_eq rfl rfl rfl rfl
           | exact (h1.of_eq (m := n1) rfl rfl rfl).setTcp _ _
       split
       · exact h2
@@ -893,15 +894,15 @@ theorem NetSt.tFrame.tcpDestroy {n m : NetSt} (h : n.tFrame m) (now : Int) (name
   split
   · exact h
   · dsimp only
-    refine NetSt.tFrame.of_eq (m := (if _ then _ else _ : NetSt × List NEff).1) ?_ rfl rfl rfl
+    refine NetSt.tFrame.of_eq (m := (if _ then _ else _ : NetSt × List NEff).1) ?_ rfl rfl rfl rfl
     split
     · exact h.accClose _ _
     · exact (h.setTcp _ _).tcpClose _ _
 
-theorem tcpMove_none (n : NetSt) (src dst : String) (h : n.tcp? src = none) : n.tcpMove src dst = n := by
+theorem tcpMove_none_d (n : NetSt) (src dst : String) (h : n.tcp? src = none) : n.tcpMove src dst = n := by
   unfold NetSt.tcpMove; simp only [h]
 
-theorem tcpMove_some (n : NetSt) (src dst : String) (t : TcpSock) (h : n.tcp? src = some t) :
+theorem tcpMove_some_d (n : NetSt) (src dst : String) (t : TcpSock) (h : n.tcp? src = some t) :
     n.tcpMove src dst =
       (({ n with reg := { n.reg with tcp := if t.bound.isDefault then n.reg.tcp
                           else n.reg.tcp.map (fun (e : Ep × String) => if e.1 == t.bound && e.2 == src then (e.1, dst) else e) },
@@ -919,7 +920,7 @@ theorem tcpMove_frame (n : NetSt) (src dst : String) (t : TcpSock) (h : n.tcp? s
     (n.tcpMove src dst).udps = n.udps ∧ (n.tcpMove src dst).reg.udp = n.reg.udp
     ∧ (n.tcpMove src dst).fwds.length = n.fwds.length
     ∧ ∀ g, (n.tcpMove src dst).fwdTarget g = if t.fwd = some g then some dst else n.fwdTarget g := by
-  rw [tcpMove_some n src dst t h]
+  rw [tcpMove_some_d n src dst t h]
   refine ⟨rfl, rfl, ?_, fun g => ?_⟩
   · cases t.fwd <;> simp [NetSt.setFwd]
   · cases hf : t.fwd with
@@ -934,8 +935,8 @@ theorem tcpMove_frame (n : NetSt) (src dst : String) (t : TcpSock) (h : n.tcp? s
 theorem tcpMove_udps (n : NetSt) (src dst : String) :
     (n.tcpMove src dst).udps = n.udps ∧ (n.tcpMove src dst).reg.udp = n.reg.udp := by
   cases h : n.tcp? src with
-  | none => rw [tcpMove_none n src dst h]; exact ⟨rfl, rfl⟩
-  | some t => rw [tcpMove_some n src dst t h]; exact ⟨rfl, rfl⟩
+  | none => rw [tcpMove_none_d n src dst h]; exact ⟨rfl, rfl⟩
+  | some t => rw [tcpMove_some_d n src dst t h]; exact ⟨rfl, rfl⟩
 
 /-! ### the open system `NS`: TCP labels -/
 
@@ -977,7 +978,7 @@ theorem NS.step_tcp_tFrame (s : NS) (l : NLbl) (h : l.isTcp = true) (hm : ∀ a 
     split
     · exact r
     · split
-      · exact (r.of_eq (k := { s.n with chans := chans' }) rfl rfl rfl).setTcp _ _
+      · exact (r.of_eq (k := { s.n with chans := chans' }) rfl rfl rfl rfl).setTcp _ _
       · exact r
 
 theorem NS.step_tcp_udps (s : NS) (l : NLbl) (h : l.isTcp = true) :
@@ -1359,7 +1360,7 @@ theorem NS.step_keepsFwds (s : NS) (l : NLbl) (h : l.keepsFwds = true) :
     show (s.n.udpWaitWrite now name hh).1.fwds = _ ∧ (s.n.udpWaitWrite now name hh).1.tcps = _ ∧ _
     rw [udpWaitWrite_fst]; exact ⟨by simp, by simp, rfl⟩
   case uSendWaitFired name ab =>
-    have := udpSendWaitFired_frame s.n name ab
+    have := udpSendWaitFired_frame_d s.n name ab
     exact ⟨this.1, this.2.2.1, rfl⟩
   case uCancel name =>
     show (s.n.udpCancel name).1.fwds = _ ∧ (s.n.udpCancel name).1.tcps = _ ∧ _
@@ -1827,5 +1828,82 @@ theorem logs_append_only (s : NS) (l : NLbl) (hm : ∀ a b, l ≠ .uMove a b) (x
     | exact triv
     | exact ⟨triv.1, outS _ _⟩
     | (split <;> exact triv)
+
+/-! ### error codes of `bind` -/
+
+theorem ioResolve_error_d (ips : List String) (ep : Ep) (e : Ec) (h : ioResolve ips ep = .error e) : e = .notAvail := by
+  unfold ioResolve at h
+  repeat' split at h
+  all_goals simp_all
+
+theorem udpBind_codes (n : NetSt) (name : String) (ep : Ep) :
+    (n.udpBind name ep).2 ∈ [Ec.other, .badDesc, .afNoSupport, .invalid, .notAvail, .inUse, .denied, .ok] := by
+  unfold NetSt.udpBind
+  split
+  · simp
+  · split
+    · simp
+    · split
+      · simp
+      · split
+        · simp
+        · split
+          · rename_i e he
+            rw [ioResolve_error_d _ _ _ he]; simp
+          · rename_i ep1 _
+            rcases simBind_cases n.reg.udp n.reg.nextPort name ep1 with ⟨_, _, e⟩ | ⟨_, _, e⟩ | ⟨q, h0, hp, e⟩ | ⟨_, _, e⟩ | ⟨hge, hl, e⟩ <;>
+              rw [e] <;> simp
+
+/-! ### the configuration never changes -/
+
+theorem NS.step_cfg (s : NS) (l : NLbl) : (s.step l).n.cfg = s.n.cfg := by
+  rcases l.kinds with ht | hk | ⟨x, v4, e⟩ | ⟨x, e⟩ | ⟨x, e⟩ | ⟨a, b, e⟩
+  · by_cases hm : ∀ a b, l ≠ .tMove a b
+    · exact (NS.step_tcp_tFrame s l ht hm).cfg
+    · have : ∃ a b, l = .tMove a b := by
+        apply Classical.byContradiction; intro hc; apply hm; intro a b e; exact hc ⟨a, b, e⟩
+      obtain ⟨a, b, e⟩ := this
+      subst e
+      simp only [NS.step]
+      split
+      · show (s.n.tcpMove a b).cfg = s.n.cfg
+        cases h : s.n.tcp? a with
+        | none => rw [tcpMove_none_d _ _ _ h]
+        | some t => rw [tcpMove_some_d _ _ _ t h]; rfl
+      · rfl
+  · cases l <;> simp only [NLbl.keepsFwds] at hk <;> try (exact absurd hk (by decide))
+    case uNew name node => simp only [NS.step]; split <;> rfl
+    case uBind name ep => exact (udpBind_ctlStep s.n name ep).cfg
+    case uSendTo now name dst payload => exact (udpSendTo_ctlStep s.n now name dst payload).cfg
+    case uRecv name op => show (s.n.udpAsyncRecv name op).1.cfg = _; rw [udpAsyncRecv_fst]; simp
+    case uRecvNb name caps => show (s.n.udpRecvNb name caps).1.cfg = _; rw [udpRecvNb_fst]; simp
+    case uWaitRead name hh => show (s.n.udpWaitRead name hh).1.cfg = _; rw [udpWaitRead_fst]; simp
+    case uWaitWrite now name hh => show (s.n.udpWaitWrite now name hh).1.cfg = _; rw [udpWaitWrite_fst]; simp
+    case uSendWaitFired name ab => exact (udpSendWaitFired_frame_d s.n name ab).2.2.2
+    case uCancel name => show (s.n.udpCancel name).1.cfg = _; rw [udpCancel_fst]; simp
+    case uSetDf name df => simp only [NS.step]; split <;> rfl
+    case deliver f p =>
+      cases hf : s.n.fwdTarget f with
+      | none => rw [NS.step_deliver_none s f p hf]
+      | some name =>
+        cases hu : s.n.udp? name with
+        | none => rw [NS.step_deliver_tcp s f p name hf hu]
+        | some u => rw [(NS.step_deliver_some s f p name u hf hu).1]; rfl
+  · subst e; exact udpOpen_cfg _ _ _
+  · subst e; exact udpClose_cfg _ _
+  · subst e; exact udpDestroy_cfg _ _
+  · subst e
+    simp only [NS.step]
+    split
+    · show (s.n.udpMove a b).cfg = s.n.cfg
+      cases h : s.n.udp? a with
+      | none => rw [udpMove_none_d _ _ _ h]
+      | some u => rw [udpMove_some_d _ _ _ u h]; rfl
+    · rfl
+
+theorem NS.run_cfg (s : NS) (ls : List NLbl) : (s.run ls).n.cfg = s.n.cfg := by
+  induction ls generalizing s with
+  | nil => rfl
+  | cons l ls ih => exact (ih (s.step l)).trans (NS.step_cfg s l)
 
 end SimVerif
